@@ -38,7 +38,7 @@ ASSUMPTIONS = [
     "removing the last key of a section is hand-edited as deleting the line and the then-empty section header",
     "values containing line continuations are not used for --list-items comparisons",
 ]
-REQUIRED = {"same_key_two_sections": 4, "valid": 80, "invalid": 30, "op:override": 60, "op:remove": 40, "op:add": 40, "whitespace_key": 40,
+REQUIRED = {"remove_then_add": 5, "override_empty_value": 3, "same_key_two_sections": 4, "valid": 80, "invalid": 30, "op:override": 60, "op:remove": 40, "op:add": 40, "whitespace_key": 40,
             "removes_last_key": 5, "repeated_override": 10, "route:ConfigParser": 30, "route:make_config_parser": 30,
             "section:Table-Form": 5, "section:Species": 5, "listing": 40}
 
@@ -59,17 +59,50 @@ def _ws(draw, key):
     return "".join(out).strip() if how == "spaces" else "".join(out)
 
 
+NOTES = ["Notes", [["author", "someone"], ["comment", "free text 1"]]]
+
+
+def _secs(case_or_model, notes):
+    secs = anymodel.sections_of(case_or_model)
+    if notes:
+        secs.append([NOTES[0], [list(e) for e in NOTES[1]]])
+    return secs
+
+
 @st.composite
 def _case(draw, targets=None, invalid=False, repeat=False, cross=False):
     m = draw(gen.any_model(targets, 1, 3, depth=0))
-    secs = anymodel.sections_of(m)
+    notes = draw(st.booleans())
+    secs = _secs(m, notes)
     nops = draw(st.integers(1, 5))
     ops = []
     used = set()
     keys = [(n, k, v) for n, ents in secs for k, v in ents]
     editable = [(n, k, v) for n, k, v in keys if n not in ("Tabulation",) or k in ("nr", "cutoff", "nrho", "cutoff_rho")]
     for i in range(nops):
-        kind = draw(st.sampled_from(["override", "override", "remove", "add"]))
+        kind = draw(st.sampled_from(["override", "override", "remove", "add", "remove_then_add", "override_empty"]))
+        if kind == "remove_then_add":
+            # an item removed and added again with another value: removals come before additions
+            cand = [(n, k, v) for n, k, v in keys if (n, k) not in used and n in ("Pair", "Species", "Notes")]
+            if not cand:
+                continue
+            n, k, v = draw(st.sampled_from(cand))
+            newv = {"Pair": "as.constant %d" % draw(st.integers(1, 9)), "Species": "%d" % draw(st.integers(1, 9)),
+                    "Notes": "changed %d" % draw(st.integers(1, 9))}[n]
+            if n == "Species" and not k.endswith("charge"):
+                newv = v
+            ops.append({"op": "remove", "section": n, "key0": k, "key": _ws(draw, k)})
+            ops.append({"op": "add", "section": n, "key0": k, "key": _ws(draw, k), "value": newv, "readd": True})
+            used.add((n, k))
+            continue
+        if kind == "override_empty":
+            cand = [(n, k, v) for n, k, v in keys if n == "Notes" and (n, k) not in used]
+            if not cand:
+                continue
+            n, k, v = draw(st.sampled_from(cand))
+            ops.append({"op": "override", "section": n, "key0": k, "key": k, "value": ""})
+            used.add((n, k))
+            continue
         if kind == "override":
             n, k, v = draw(st.sampled_from(editable))
             if (n, k) in used and not any(o["op"] == "override" and (o["section"], o["key0"]) == (n, k) for o in ops):
@@ -113,7 +146,7 @@ def _case(draw, targets=None, invalid=False, repeat=False, cross=False):
             used.add((sec, k))
     if invalid:
         why = draw(st.sampled_from(["override_missing_key", "override_missing_section", "remove_missing_key",
-                                    "add_existing", "add_existing_ws", "add_twice", "add_twice_ws"]))
+                                    "add_existing", "add_existing_ws", "add_twice", "add_twice_ws", "remove_twice"]))
         n, k, v = draw(st.sampled_from(keys))
         if why == "override_missing_key":
             bad = {"op": "override", "section": n, "key0": k + "_x", "key": k + "_x", "value": v}
@@ -121,6 +154,18 @@ def _case(draw, targets=None, invalid=False, repeat=False, cross=False):
             bad = {"op": "override", "section": "Nowhere", "key0": k, "key": k, "value": v}
         elif why == "remove_missing_key":
             bad = {"op": "remove", "section": n, "key0": "zz" + k, "key": "zz" + k}
+        elif why == "remove_twice":
+            # the second removal finds nothing to remove (only expressible through ConfigParser(overrides=...):
+            # the command line collapses repeated options for one item)
+            cand = [(nn, kk) for nn, kk, _ in keys if (nn, kk) not in used and nn in ("Pair", "Species", "Notes")]
+            if cand:
+                nn, kk = draw(st.sampled_from(cand))
+                ops.append({"op": "remove", "section": nn, "key0": kk, "key": kk})
+                ops.append({"op": "remove", "section": nn, "key0": kk, "key": _ws(draw, kk), "invalid": why})
+                used.add((nn, kk))
+                bad = None
+            else:
+                bad = {"op": "override", "section": "Nowhere", "key0": k, "key": k, "value": v}
         elif why in ("add_twice", "add_twice_ws"):
             # the same new item added by two options: after the first addition it exists
             first = {"op": "add", "section": "Pair", "key0": "Xq-Yq", "key": "Xq-Yq", "value": "as.constant 3"}
@@ -167,7 +212,9 @@ def _case(draw, targets=None, invalid=False, repeat=False, cross=False):
         n, k, v = draw(st.sampled_from(editable))
         ops.append({"op": "override", "section": n, "key0": k, "key": _ws(draw, k), "value": v})
     route = draw(st.sampled_from(["ConfigParser", "make_config_parser"])) if not cross else "make_config_parser"
-    return {"model": m, "ops": ops, "route": route}
+    if any(o.get("invalid") == "remove_twice" for o in ops):
+        route = "ConfigParser"
+    return {"model": m, "ops": ops, "route": route, "notes": notes}
 
 
 def strategy(tier):
@@ -196,7 +243,7 @@ def validate(case):
         g = m["grid"]
         if g["nr"] < 3 or g.get("nrho", 3) < 2 or not case["ops"]:
             return False
-        secs = anymodel.sections_of(m)
+        secs = _secs(m, case.get("notes"))
         return all(v.strip() for _, e in secs for _, v in e) and all(e for n, e in secs if n != "Pair")
     except Exception:
         return False
@@ -282,7 +329,7 @@ def _expected_items(edited):
 def check_case(case):
     m, ops, route = case["model"], case["ops"], case["route"]
     target = m["target"]
-    secs = anymodel.sections_of(m)
+    secs = _secs(m, case.get("notes"))
     text = anymodel.text_of(secs)
     edited, reason, stats = hand_edit(secs, ops)
     cls = ["route:" + route, "target:" + target, "valid" if edited is not None else "invalid"]
@@ -292,6 +339,10 @@ def check_case(case):
         cls.append("whitespace_key")
     if stats["removes_last_key"]:
         cls.append("removes_last_key")
+    if any(o.get("readd") for o in ops):
+        cls.append("remove_then_add")
+    if any(o["op"] == "override" and o.get("value") == "" for o in ops):
+        cls.append("override_empty_value")
     if len(set(o["section"] for o in ops)) < len(set((o["section"], o["key0"]) for o in ops)) and \
             len(set(o["key0"] for o in ops)) < len(set((o["section"], o["key0"]) for o in ops)):
         cls.append("same_key_two_sections")
